@@ -781,7 +781,15 @@ def main(tier, replay=None):
         cases = [c for c, _ in all_cases[kind]]
         bad, logs = evaluate(kind, cases, "c")
         total_bad += len(bad)
-        for i, code, seen in sorted(bad, key=lambda b: (-b[1], len(cases[b[0]][-1])))[:30]:
+        def rejected_first(b):
+            # two-property cases: show a REJECTED operation on the trigger that changed something first
+            if kind != "dp":
+                return 0
+            ct = cases[b[0]][0][0]
+            return 0 if (not ct[0] and not ct[2] and any(o[0] == "TAssign" and row[0] == ERR_CODES["AttrErr"]
+                                                         for o, row in zip(cases[b[0]][-1], b[2]))) else 1
+
+        for i, code, seen in sorted(bad, key=lambda b: (-b[1], rejected_first(b), len(cases[b[0]][-1])))[:30]:
             small = shrink(kind, cases[i], code)
             fl = flags_of(kind, small)
             last = small[-1][-1][0]
